@@ -19,33 +19,41 @@ pub trait Source {
   fn source(&self) -> (r: Cow<str>)
     ensures cow_target(&r).spec_bytes() == self.text();
   fn rope(&self) -> (r: Rope<'_>)
-    ensures r.bytes() == self.text();
+    ensures r.wf(), r.bytes() == self.text();
 }
 """
 
 GLUE_ROPE = r"""
-// D6: `Rope` enters as an opaque external type with ASSUMED contracts for the five methods ReplaceSource::rope calls
-// (these are statements of property C16 for new/len/byte_slice/append/add; rope.rs itself is not verified here).
+// D6: `Rope` enters as an opaque external type with the contracts of the five methods ReplaceSource::rope calls.  These
+// are, clause for clause, the contracts unit rope_core PROVES on the real src/rope.rs (`wf` = its representation
+// invariant; `byte_slice(a..b)` = its client lemma for the Range<usize> call shape); they are restated here only because
+// the two units are verified in separate files.
 #[verifier::external_body]
 pub struct Rope<'a> { _p: std::marker::PhantomData<&'a str> }
 impl<'a> Rope<'a> {
   /// a rope denotes a string: its bytes are the UTF-8 encoding of a char sequence
   pub uninterp spec fn chars(&self) -> Seq<char>;
   pub open spec fn bytes(&self) -> Seq<u8> { encode_utf8(self.chars()) }
+  /// rope_core's representation invariant (opaque here)
+  pub uninterp spec fn wf(&self) -> bool;
   #[verifier::external_body]
-  pub fn new() -> (r: Self) ensures r.bytes() == Seq::<u8>::empty() { unimplemented!() }
+  pub fn new() -> (r: Self) ensures r.wf(), r.bytes() == Seq::<u8>::empty() { unimplemented!() }
   #[verifier::external_body]
-  pub fn len(&self) -> (n: usize) ensures n == self.bytes().len() { unimplemented!() }
+  pub fn len(&self) -> (n: usize) requires self.wf() ensures n == self.bytes().len() { unimplemented!() }
   /// panics (C16: "get_byte_slice returns None exactly for ranges that are reversed, out of bounds or not on char boundaries")
   #[verifier::external_body]
   pub fn byte_slice(&self, range: std::ops::Range<usize>) -> (r: Rope<'a>)
-    requires range.start <= range.end <= self.bytes().len(), is_char_boundary(self.bytes(), range.start as int), is_char_boundary(self.bytes(), range.end as int)
-    ensures r.bytes() == self.bytes().subrange(range.start as int, range.end as int)
+    requires self.wf(), range.start <= range.end <= self.bytes().len(), is_char_boundary(self.bytes(), range.start as int), is_char_boundary(self.bytes(), range.end as int)
+    ensures r.wf(), r.bytes() == self.bytes().subrange(range.start as int, range.end as int)
   { unimplemented!() }
   #[verifier::external_body]
-  pub fn append(&mut self, value: Rope<'a>) ensures final(self).bytes() == old(self).bytes() + value.bytes() { unimplemented!() }
+  pub fn append(&mut self, value: Rope<'a>)
+    requires old(self).wf(), value.wf(), old(self).bytes().len() + value.bytes().len() <= usize::MAX
+    ensures final(self).wf(), final(self).bytes() == old(self).bytes() + value.bytes() { unimplemented!() }
   #[verifier::external_body]
-  pub fn add(&mut self, value: &'a str) ensures final(self).bytes() == old(self).bytes() + value.spec_bytes() { unimplemented!() }
+  pub fn add(&mut self, value: &'a str)
+    requires old(self).wf(), old(self).bytes().len() + value.spec_bytes().len() <= usize::MAX
+    ensures final(self).wf(), final(self).bytes() == old(self).bytes() + value.spec_bytes() { unimplemented!() }
 }
 """
 
@@ -234,15 +242,18 @@ def build_rope(u, s):
     u.g1_sites_rope = g1_guard_continue(s, "rope", 1)
     s.sig("rope", [
         ("rope.requires", "contract", "requires self.dom_ok()"),
+        ("rope.requires.len", "contract",
+         "requires forall|idx: Seq<int>| #![trigger stable_sorted_idx(self.replacements@, idx)] stable_sorted_idx(self.replacements@, idx)\n"
+         "    ==> splice(self.inner.text(), rviews(picks(self.replacements@, idx)), 0).len() <= usize::MAX"),
         ("rope.ensures", "contract",
-         "ensures exists|idx: Seq<int>| stable_sorted_idx(self.replacements@, idx)\n"
+         "ensures res.wf(), exists|idx: Seq<int>| stable_sorted_idx(self.replacements@, idx)\n"
          "    && res.bytes() == splice(self.inner.text(), rviews(picks(self.replacements@, idx)), 0)", F),
     ], ret="res")
     s.loop("rope", 1, [
         ("rope.loop1.frame", "contract",
          "invariant ib == inner_source_code.bytes(), ib == self.inner.text(), self.dom_ok(),\n"
          "  stable_sorted_idx(self.replacements@, idx), derefs(replacements@) == picks(self.replacements@, idx), rs == rviews(picks(self.replacements@, idx)),\n"
-         "  inner_pos <= ib.len(), pos_ok(ib, inner_pos),"),
+         "  inner_pos <= ib.len(), pos_ok(ib, inner_pos), source_code.wf(), inner_source_code.wf(), splice(ib, rs, 0).len() <= usize::MAX,"),
         ("rope.loop1.inv", "contract",
          "invariant source_code.bytes() + splice(ib, rs.skip(it.index@ as int), inner_pos as int) == splice(ib, rs, 0),", F),
     ])
@@ -273,6 +284,10 @@ def build_rope(u, s):
                       "let ghost r = rs[i];\n"
                       "let ghost b0 = source_code.bytes();\n"
                       "let ghost pos0 = inner_pos as int;")
+    s.at("rope", "before", r"source_code\.append\(slice\);", "rope.hint.fits1", "hint",
+         "proof { assert(splice(ib, rs.skip(i), pos0).len() >= slice.bytes().len() + r.content.len()); }", regex=True, nth=1)
+    s.at("rope", "before", r"source_code\.add\(&replacement\.content\);", "rope.hint.fits2", "hint",
+         "proof { assert(splice(ib, rs.skip(i), pos0).len() >= (if pos0 < r.start { min2(r.start as int, ib.len() as int) - pos0 } else { 0 }) + r.content.len()); assert(replacement.content@ == self.replacements@[idx[i]].content@); }", regex=True, nth=1)
     s.at("rope", "before", r"source_code\.add\(&replacement\.content\);", "rope.hint.mid", "hint",
          "proof { assert(source_code.bytes() =~= b0 + (if pos0 < r.start { ib.subrange(pos0, min2(r.start as int, ib.len() as int)) } else { Seq::<u8>::empty() })); }",
          regex=True, tags=F, nth=1)
